@@ -102,11 +102,12 @@ Definition state (R : Type) := list (string * argval R).
 
 Inductive value (R : Type) :=
 | VVec (l : list R)                 (* __m128/__m256/__m256d/__m512 with real lanes *)
-| VInt (w : Z) (l : list Z)         (* a vector known by its bits, as w-bit lanes (also masks typed __m256) *)
+| VInt (w : Z) (l : list Z)         (* a vector known by its bits, as w-bit lanes *)
+| VMask (w : Z) (l : list bool)     (* comparison result: every w-bit lane all-ones (true) or all-zeros *)
 | VScal (r : R)
 | VNum (z : Z)                      (* C int *)
 | VPtr (t : ety) (name : string).   (* address of element 0 of the window bound to [name] *)
-Arguments VVec {R}. Arguments VInt {R}. Arguments VScal {R}. Arguments VNum {R}. Arguments VPtr {R}.
+Arguments VVec {R}. Arguments VInt {R}. Arguments VMask {R}. Arguments VScal {R}. Arguments VNum {R}. Arguments VPtr {R}.
 
 (* ------------------------------------------------------------------ C fragment AST *)
 
@@ -271,12 +272,25 @@ Definition vec3 (n : Z) (f : R -> R -> R -> R) (a b c : value R) : option (value
   | _, _, _ => None
   end.
 
+Definition ones (w : Z) : Z := 2^w - 1.
+
+Definition as_int (v : value R) : option (Z * list Z) :=
+  match v with
+  | VInt w l => Some (w, l)
+  | VMask w bs => Some (w, map (fun b : bool => if b then ones w else 0) bs)
+  | _ => None
+  end.
+
 Definition fma (a b c : R) : R := radd o (rmul o a b) c.
 Definition rmax (a b : R) : R := if rltb o b a then a else b.     (* MAXPS: a > b ? a : b *)
 
 (* sign bit of every w-bit lane of a mask operand, n lanes *)
 Definition mask_bits (w n : Z) (m : value R) : option (list bool) :=
   match m with
+  | VMask w0 bs =>
+      if (w0 =? w) && (zlen bs =? n) then Some bs
+      else let l' := relane w0 w (map (fun b : bool => if b then 2^w0 - 1 else 0) bs) in
+           if zlen l' =? n then Some (map (fun z => Z.testbit z (w - 1)) l') else None
   | VInt w0 l => let l' := relane w0 w l in
                  if zlen l' =? n then Some (map (fun z => Z.testbit z (w - 1)) l') else None
   | VVec l => if zlen l =? n then Some (map (fun x => rltb o x (r0 o)) l) else None
@@ -319,8 +333,6 @@ Definition hadd_pd (a b : list R) : option (list R) :=
   | _, _ => None
   end.
 
-Definition ones (w : Z) : Z := 2^w - 1.
-
 (* value-returning intrinsics (may read memory) *)
 Definition app_intrin (f : intrin) (args : list (value R)) (st : state R) : option (value R) :=
   match f, args with
@@ -354,15 +366,27 @@ Definition app_intrin (f : intrin) (args : list (value R)) (st : state R) : opti
   | I_mm512_add_ps, [a; b] => vec2 16 (radd o) a b
   | I_mm256_sub_ps, [a; b] => vec2 8 (rsub o) a b
   | I_mm256_sub_pd, [a; b] => vec2 4 (rsub o) a b
-  | I_mm256_adds_epu16, [VInt wa a; VInt wb b] =>
-      let a' := relane wa 16 a in let b' := relane wb 16 b in
-      if (zlen a' =? 16) && (zlen b' =? 16) then Some (VInt 16 (map2 adds_epu16_lane a' b')) else None
-  | I_mm256_mulhi_epu16, [VInt wa a; VInt wb b] =>
-      let a' := relane wa 16 a in let b' := relane wb 16 b in
-      if (zlen a' =? 16) && (zlen b' =? 16) then Some (VInt 16 (map2 mulhi_epu16_lane a' b')) else None
-  | I_mm256_srli_epi16, [VInt wa a; VNum k] =>
-      let a' := relane wa 16 a in
-      if zlen a' =? 16 then Some (VInt 16 (map (srli_epi16_lane k) a')) else None
+  | I_mm256_adds_epu16, [va; vb] =>
+      match as_int va, as_int vb with
+      | Some (wa, a), Some (wb, b) =>
+          let a' := relane wa 16 a in let b' := relane wb 16 b in
+          if (zlen a' =? 16) && (zlen b' =? 16) then Some (VInt 16 (map2 adds_epu16_lane a' b')) else None
+      | _, _ => None
+      end
+  | I_mm256_mulhi_epu16, [va; vb] =>
+      match as_int va, as_int vb with
+      | Some (wa, a), Some (wb, b) =>
+          let a' := relane wa 16 a in let b' := relane wb 16 b in
+          if (zlen a' =? 16) && (zlen b' =? 16) then Some (VInt 16 (map2 mulhi_epu16_lane a' b')) else None
+      | _, _ => None
+      end
+  | I_mm256_srli_epi16, [va; VNum k] =>
+      match as_int va with
+      | Some (wa, a) =>
+          let a' := relane wa 16 a in
+          if zlen a' =? 16 then Some (VInt 16 (map (srli_epi16_lane k) a')) else None
+      | None => None
+      end
   | I_mm512_mask_add_ps, [VVec s; VNum k; VVec a; VVec b] =>
       if (zlen s =? 16) && (zlen a =? 16) && (zlen b =? 16) then
         Some (VVec (map3 (fun (m : bool) x y => if m then y else x) (kbits 16 k) s (map2 (radd o) a b)))
@@ -391,10 +415,10 @@ Definition app_intrin (f : intrin) (args : list (value R)) (st : state R) : opti
       end
   | I_mm256_cmp_ps, [VVec a; VVec b; VNum p] =>        (* only _CMP_LT_OQ = 17 is modelled *)
       if (p =? 17) && (zlen a =? 8) && (zlen b =? 8)
-      then Some (VInt 32 (map2 (fun x y => if rltb o x y then ones 32 else 0) a b)) else None
+      then Some (VMask 32 (map2 (rltb o) a b)) else None
   | I_mm256_cmp_pd, [VVec a; VVec b; VNum p] =>
       if (p =? 17) && (zlen a =? 4) && (zlen b =? 4)
-      then Some (VInt 64 (map2 (fun x y => if rltb o x y then ones 64 else 0) a b)) else None
+      then Some (VMask 64 (map2 (rltb o) a b)) else None
   | I_mm256_hadd_ps, [VVec a; VVec b] => option_map VVec (hadd_ps a b)
   | I_mm256_hadd_pd, [VVec a; VVec b] => option_map VVec (hadd_pd a b)
   | I_mm256_castps128_ps256, [VVec a] =>
@@ -405,19 +429,23 @@ Definition app_intrin (f : intrin) (args : list (value R)) (st : state R) : opti
       if zlen a =? 8 then Some (VVec (if Z.testbit i 0 then skipn 4 a else firstn 4 a)) else None
   | I_mm256_extractf128_pd, [VVec a; VNum i] =>
       if zlen a =? 4 then Some (VVec (if Z.testbit i 0 then skipn 2 a else firstn 2 a)) else None
-  | I_mm256_cvtss_f32, [VVec (x :: _ as a)] => if zlen a =? 8 then Some (VScal x) else None
-  | I_mm256_cvtsd_f64, [VVec (x :: _ as a)] => if zlen a =? 4 then Some (VScal x) else None
+  | I_mm256_cvtss_f32, [VVec ((x :: _) as a)] => if zlen a =? 8 then Some (VScal x) else None
+  | I_mm256_cvtsd_f64, [VVec ((x :: _) as a)] => if zlen a =? 4 then Some (VScal x) else None
   | I_mm256_cvtps_pd, [VVec a] => if zlen a =? 4 then Some (VVec a) else None
   | I_mm256_set1_epi8, [VNum z] => Some (VInt 8 (rep 32 (z mod 2^8)))
   | I_mm256_set1_epi16, [VNum z] => Some (VInt 16 (rep 16 (z mod 2^16)))
   | I_mm256_set1_epi32, [VNum z] => Some (VInt 32 (rep 8 (z mod 2^32)))
   | I_mm256_set_epi32, [VNum e7; VNum e6; VNum e5; VNum e4; VNum e3; VNum e2; VNum e1; VNum e0] =>
       Some (VInt 32 (map (fun z => z mod 2^32) [e0; e1; e2; e3; e4; e5; e6; e7]))
-  | I_mm256_cmpgt_epi32, [VInt wa a; VInt wb b] =>
-      let a' := relane wa 32 a in let b' := relane wb 32 b in
-      if (zlen a' =? 8) && (zlen b' =? 8)
-      then Some (VInt 32 (map2 (fun x y => if signed 32 y <? signed 32 x then ones 32 else 0) a' b'))
-      else None
+  | I_mm256_cmpgt_epi32, [va; vb] =>
+      match as_int va, as_int vb with
+      | Some (wa, a), Some (wb, b) =>
+          let a' := relane wa 32 a in let b' := relane wb 32 b in
+          if (zlen a' =? 8) && (zlen b' =? 8)
+          then Some (VMask 32 (map2 (fun x y => signed 32 y <? signed 32 x) a' b'))
+          else None
+      | _, _ => None
+      end
   | I_mm256_maskload_ps, [VPtr t nm; m] =>
       if ety_is_f32 t then
         match mask_bits 32 8 m with
@@ -426,6 +454,7 @@ Definition app_intrin (f : intrin) (args : list (value R)) (st : state R) : opti
         end
       else None
   | I_mm256_castsi256_ps, [VInt w a] => Some (VInt w a)
+  | I_mm256_castsi256_ps, [VMask w a] => Some (VMask w a)
   | _, _ => None
   end.
 
@@ -439,12 +468,16 @@ Definition app_effect (f : intrin) (args : list (value R)) (st : state R) : opti
       if ety_is_f64 t && (zlen l =? 4) then store_masked st nm 0 (rep 4 true) l else None
   | I_mm512_storeu_ps, [VPtr t nm; VVec l] =>
       if ety_is_f32 t && (zlen l =? 16) then store_masked st nm 0 (rep 16 true) l else None
-  | I_mm256_storeu_si256, [VPtr t nm; VInt w l] =>
-      if ety_is_int t then
-        let l' := relane w (ety_bits t) l in
-        if zlen l' =? 256 / ety_bits t
-        then store_masked st nm 0 (map (fun _ => true) l') (map (ofZ o) l') else None
-      else None
+  | I_mm256_storeu_si256, [VPtr t nm; v] =>
+      match as_int v with
+      | Some (w, l) =>
+          if ety_is_int t then
+            let l' := relane w (ety_bits t) l in
+            if zlen l' =? 256 / ety_bits t
+            then store_masked st nm 0 (map (fun _ => true) l') (map (ofZ o) l') else None
+          else None
+      | None => None
+      end
   | I_mm512_mask_storeu_ps, [VPtr t nm; VNum k; VVec l] =>
       if ety_is_f32 t && (zlen l =? 16) then store_masked st nm 0 (kbits 16 k) l else None
   | I_mm256_maskstore_ps, [VPtr t nm; m; VVec l] =>
@@ -536,9 +569,13 @@ Definition assign_reg (t : ety) (n : Z) (nm : string) (v : value R) (st : state 
   | Some (AReg _) =>
       match v with
       | VVec l => if negb (ety_is_int t) && (zlen l =? n) then update nm (AReg l) st else None
-      | VInt w l =>
-          let l' := relane w (ety_bits t) l in
-          if ety_is_int t && (zlen l' =? n) then update nm (AReg (map (ofZ o) l')) st else None
+      | VInt _ _ | VMask _ _ =>
+          match as_int v with
+          | Some (w, l) =>
+              let l' := relane w (ety_bits t) l in
+              if ety_is_int t && (zlen l' =? n) then update nm (AReg (map (ofZ o) l')) st else None
+          | None => None
+          end
       | _ => None
       end
   | _ => None
